@@ -1,8 +1,8 @@
 CONSTANTS
-  MaxRows = 3
-  QuerySet = "group"
+  MaxRows = 2
+  QuerySet = "invalid"
   EmitMode = "cases"
-  TableStride = 2
+  TableStride = 1
   Variant = "ok"
 INIT Init
 NEXT Next
